@@ -332,10 +332,27 @@ def _last_cut(dv: FA, e, at, param, sep):
         return isinstance(n, ast.Call) and A.call_attr(n) in ("rfind", "rindex") and isinstance(n.func, ast.Attribute) and is_state(n.func.value) \
             and len(n.args) == 1 and A.const_str(n.args[0]) == sep
 
+    def affine(n):
+        """(k, c) with n == k * <position of the last sep> + c, through + / - of integer constants; else None"""
+        if is_rfind(n):
+            return (1, 0)
+        ic = _int_const(n)
+        if ic is not None:
+            return (0, ic)
+        if isinstance(n, ast.BinOp) and isinstance(n.op, (ast.Add, ast.Sub)):
+            a_, b_ = affine(n.left), affine(n.right)
+            if a_ is None or b_ is None:
+                return None
+            sg = 1 if isinstance(n.op, ast.Add) else -1
+            return (a_[0] + sg * b_[0], a_[1] + sg * b_[1])
+        return None
+
     if isinstance(x, ast.Subscript) and is_state(x.value) and isinstance(x.slice, ast.Slice) and x.slice.step is None:
         lo, up = x.slice.lower, x.slice.upper
-        if (lo is None or _int_const(lo) == 0) and up is not None and is_rfind(up):
+        if (lo is None or _int_const(lo) == 0) and up is not None and affine(up) == (1, 0):
             return "before"
+        if up is None and lo is not None and affine(lo) == (1, len(sep)):
+            return "after"
         if up is None and isinstance(lo, ast.BinOp) and isinstance(lo.op, ast.Add):
             a_, b_ = lo.left, lo.right
             n = len(sep)
